@@ -27,7 +27,7 @@ def _sg64(v):
 
 def check(ctx, m, cfg, props_sel, rule="R-CFORM"):
     insts = [
-        ("getNumCells", ["C03"], _getNumCells), ("cellToChildrenSize", ["C04", "C13"], _cellToChildrenSize),
+        ("getNumCells", ["C03"], _getNumCells), ("cellToChildrenSize", ["C04", "C13", "C06"], _cellToChildrenSize),
         ("gridPathCellsSize", ["C14"], _gridPathCellsSize), ("maxFaceCount", ["C19"], _maxFaceCount),
         ("maxGridDiskSize", ["C05", "C12"], _maxGridDiskSize), ("validateChildPos", ["C13", "C01"], _validateChildPos),
         ("child-count arithmetic stays 64-bit", ["C13", "C04", "C03"], _narrow), ("cellArea units", ["C08"], _areaUnits), ("edgeLength units", ["C10"], _edgeUnits),
